@@ -95,6 +95,57 @@ def file_leaves(spec):
     return [(p, s) for p, s in leaves(spec) if s[0] in ("file", "dir")]
 
 
+def set_leaves(spec):
+    """(position, leaf spec) of the multi-path file-set leaves ["set", [file leaf, ...]]"""
+    return [(p, s) for p, s in leaves(spec) if s[0] == "set"]
+
+
+def set_scattered(leaf):
+    """the member paths of a file-set leaf do not all lie in one directory"""
+    return len({m[1] for m in leaf[1]}) > 1
+
+
+def _dups(xs):
+    return len(set(xs)) != len(xs)
+
+
+def collation_unsatisfiable(leaf, collation, allowed_bits, leave_bit=1):
+    """Reason why fileformats' documentation lets FileSet.copy REFUSE this file-set leaf with this
+    collation (else None): `siblings` "requires that the file/dir name in fspaths are unique",
+    `adjacent` additionally "that the file-set only includes files/dirs with unique suffixes"
+    (suffix = after the first '.' according to CopyCollation, after the last one according to the
+    default extension decomposition of FileSet.copy: either reading excuses a refusal), and paths
+    spread over directories cannot be collated by a mode that only allows leaving them in place."""
+    if collation not in ("siblings", "adjacent") or len(leaf[1]) < 2:
+        return None
+    names = [m[2] for m in leaf[1]]
+    if _dups(names):
+        return "duplicate_names"
+    if collation == "adjacent":
+        first = [n[n.index("."):] if "." in n else "" for n in names]
+        last = [n[n.rindex("."):] if "." in n else "" for n in names]
+        if _dups(first) or _dups(last):
+            return "duplicate_extensions"
+    if set_scattered(leaf) and not (allowed_bits & ~leave_bit):
+        return "scattered_but_mode_only_leaves"
+    return None
+
+
+def share_a_stem(names):
+    """the names consist of ONE stem followed by nothing or by '.<extension>' - under some split
+    of the first name into stem and extension (fileformats documents both first-dot and last-dot
+    extensions)"""
+    names = list(names)
+    n0 = names[0]
+    for i in range(1, len(n0) + 1):
+        if i < len(n0) and n0[i] != ".":
+            continue
+        s = n0[:i]
+        if all(n == s or (n.startswith(s) and n[len(s)] == ".") for n in names):
+            return True
+    return False
+
+
 def depth(spec):
     t = spec[0]
     if t in ("list", "tuple"):
